@@ -38,4 +38,17 @@ theorem n_inits_norm_eq (sp : Space) (c : Call) (d : DState σ) (cs : CState) (h
   unfold n_inits_norm
   omega
 
+/-- the stop object of a call: `max_time`, `max_score`, `early_stopping` and the start time each in the field of its own name -/
+theorem stop_object_eq (sp : Space) (c : Call) (d : DState σ) (cs : CState) (h : initSearch sp c d = .ok cs) :
+    cs.stop = stop_object c d := by
+  unfold initSearch at h
+  simp only [bind, Except.bind, pure, Except.pure] at h
+  cases hm : initMemory sp c d.shared with
+  | error e => rw [hm] at h; simp at h
+  | ok m =>
+    rw [hm] at h
+    simp only [Except.ok.injEq] at h
+    subst h
+    rfl
+
 end GFO.Gen.Drv
